@@ -156,6 +156,8 @@ class Abs:
         if isinstance(e, ast.Name):
             if e.id in self.env:
                 return self.env[e.id]
+            if e.id in self.consts:
+                return self.consts[e.id]
             if e.id in self.summaries or e.id in self.types:
                 return ("callable", e.id)
             if e.id in ("str", "int", "float", "list", "tuple", "dict", "bool", "len", "type", "Exception"):
@@ -341,7 +343,11 @@ class Abs:
             if isinstance(b, dict):
                 return self._key(a) in b
             if isinstance(b, (list, tuple, str)):
-                return a in b
+                if isinstance(b, str):
+                    return a in b
+                return any(self.compare(ast.Eq(), a, y) for y in b)
+            if isinstance(b, (set, frozenset)):
+                return any(self.compare(ast.Eq(), a, y) for y in b)
             raise Undecided("membership in %r" % (b,))
         if isinstance(op, ast.NotIn):
             return not self.compare(ast.In(), a, b)
@@ -453,6 +459,19 @@ class Abs:
             return ("listm", attr, list(base))
         if isinstance(base, Tok):
             return Tok("%s.%s" % (base.label, attr))
+        if type(base).__name__ == "Rat":
+            from .algebra import sym as _sym
+            if attr in ("atoms", "free_symbols", "has", "subs", "expand", "simplify"):
+                syms = [_sym(a[1]) for a in base.atoms() if a[0] == "sym"]
+                if attr == "free_symbols":
+                    return syms
+                if attr == "atoms":
+                    return ("py", lambda *a, **k: list(syms))
+                if attr == "has":
+                    return ("py", lambda *a: any(base.depends_on(x.atoms().__iter__().__next__()[1]) for x in a if type(x).__name__ == "Rat" and x.atoms()))
+                if attr in ("expand", "simplify"):
+                    return ("py", lambda *a, **k: base)
+                raise Undecided("method %s of a symbolic expression is not modelled" % attr)
         if isinstance(base, (list, dict, str, tuple)):
             if attr in ("size", "shape", "ravel", "flatten", "tolist") and not isinstance(base, AList):
                 raise Raised("AttributeError(%s on a python %s)" % (attr, type(base).__name__))
